@@ -6716,7 +6716,24 @@ isoent_rr_move_dir(struct archive_write *a, struct isoent **rr_moved,
 	/*
 	 * The mvent becomes a child of the rr_moved entry.
 	 */
-	isoent_add_child_tail(rrmoved, mvent);
+	if (!isoent_add_child_tail(rrmoved, mvent)) {
+		/*
+		 * Another relocated directory has the same name, so the
+		 * name tree of rr_moved refused the entry.  rr_moved is
+		 * never searched by name (relocated directories are found
+		 * through "CL"/"PL"), so link the entry into the chains
+		 * only; the identifiers are made unique later.
+		 */
+		mvent->chnext = NULL;
+		*rrmoved->children.last = mvent;
+		rrmoved->children.last = &(mvent->chnext);
+		rrmoved->children.cnt++;
+		mvent->parent = rrmoved;
+		mvent->drnext = NULL;
+		*rrmoved->subdirs.last = mvent;
+		rrmoved->subdirs.last = &(mvent->drnext);
+		rrmoved->subdirs.cnt++;
+	}
 	archive_entry_set_nlink(rrmoved->file->entry,
 	    archive_entry_nlink(rrmoved->file->entry) + 1);
 	/*
